@@ -75,7 +75,7 @@ type Job struct {
 	Statics []StaticVar `json:"statics,omitempty"`
 	Fail    int         `json:"fail"` // -1: none
 	GetVars []string    `json:"getvars,omitempty"`
-	NoObj   bool        `json:"no_obj,omitempty"` // leave "obj" unbound (C16 contexts with missing variables)
+	NoObj   bool        `json:"no_obj,omitempty"`  // leave "obj" unbound (C16 contexts with missing variables)
 	NoVars  bool        `json:"no_vars,omitempty"` // bind nothing at all: a new / just reset context
 }
 
